@@ -179,7 +179,7 @@ _math_expr: disjunction_expr
 
 regex: "/" regex_alternation "/"
 
-regex_char_class: "\\" REGEX_CHARCLASS
+regex_char_class: REGEX_CHARCLASS
 ?regex_alternation: regex_group ("|" regex_group)*
 ?regex_group: regex_alternation_element+
 ?regex_alternation_element: regex_literal
@@ -243,7 +243,7 @@ STRING: /"(?:[^"\\]|\\.)*"/
 REGEX_UNIMPORTANT: /[^.?*()\[\]\\+{}|\/]|\\\.|\\\*|\\\(|\\\)|\\\[|\\\]|\\\+|\\\\|\\\{|\\\}|\\\||\\\//
 REGEX_OP: /[+*?]/
 REGEX_CHARGROUP_ELEMENT_RAW: /[^\-\]\\\/]|\\-|\\\]|\\\\|\\\//
-REGEX_CHARCLASS: /[wWdDsSntr ]/
+REGEX_CHARCLASS: /\\[wWdDsSntr ]/   // one terminal: ignored whitespace must not be able to slip between the backslash and the letter ("\\ D" is a space and a D)
 REGEX_BYTE: /[0-9a-fA-F]{2}/
 
 // math
@@ -3233,7 +3233,7 @@ class RegexMatch(Match):
             "s": RegexCharClass(string.whitespace),
             "S": InvertedRegexCharClass(string.whitespace),
             " ": RegexCharClass(" ")
-        }[regex_char_class.children[0].value[0]]
+        }[regex_char_class.children[0].value[1]]
         ProgramData.imbue(val, DTAG.SOURCE_LINE, regex_char_class.children[0].line)
         ProgramData.imbue(val, DTAG.SOURCE_COLUMN, regex_char_class.children[0].column)
         return val
